@@ -12,7 +12,7 @@ if [ "${IN_REPO:-0}" = "1" ]; then
 else
   target=$(mktemp -d /tmp/seedwt.XXXXXX); rmdir "$target"
   git -C /repo worktree add -q --detach "$target" HEAD || exit 3
-  git -C "$target" apply "$patch" || { echo "patch does not apply"; git -C /repo worktree remove --force "$target"; exit 3; }
+  git -C "$target" apply "$patch" 2>/dev/null || git -C "$target" apply -3 "$patch" || { echo "patch does not apply"; git -C /repo worktree remove --force "$target"; exit 3; }
 fi
 cd /verif
 for id in "$@"; do
